@@ -3,7 +3,7 @@
 cd "$(dirname "$0")/.." || exit 2
 tier=${1:-quick}
 rc=0
-for p in C01 C02 C03 C04 C05 C07 C08 C09 C10 C11 C12 C13 C14 C15 C16 C17 C18 C19 C20; do
+for p in C01 C02 C03 C04 C05 C06 C07 C08 C09 C10 C11 C12 C13 C14 C15 C16 C17 C18 C19 C20; do
   [ -f dv/props/$(echo $p | tr 'C' 'c').py ] || continue
   out=$(./check $p --tier $tier 2>&1); r=$?
   echo "$out" | tail -1 | sed "s/^/[rc=$r] /"
